@@ -16,7 +16,8 @@ open Bpp Bpp.Proto Bpp.NumDeriv Bpp.Scalar
 /-! ### numbers on the wire -/
 def natLog2 (n : Nat) : Nat := Nat.log2 n
 
-/-- round-to-nearest-even conversion of a rational to binary64 (normal range only) -/
+/-- exact conversion of a rational to binary64 (normal range only); `none` when the rational is not
+a double: the rational run then prints `inexact` and no exactness predicate is evaluated -/
 def ratToFloat (q : Rat) : Option Float :=
   if q == 0 then some (Float.ofBits 0) else
   let neg := decide (q < 0)
@@ -30,10 +31,9 @@ def ratToFloat (q : Rat) : Option Float :=
   let e : Int := if fits e0 then e0 else if fits (e0 - 1) then e0 - 1 else e0 + 1
   if !fits e then none else
   let (n, d) := scaled e
-  let m0 := n / d
-  let r := n % d
-  let m := if 2 * r > d then m0 + 1 else if 2 * r < d then m0 else (if m0 % 2 == 1 then m0 + 1 else m0)
-  let (m, e) := if m == 2 ^ 53 then (2 ^ 52, e + 1) else (m, e)
+  let m := n / d
+  -- only exactly representable rationals: no rounding
+  if n % d != 0 then none else
   let be : Int := e + 52 + 1023
   if be < 1 || be > 2046 then none else
   let bits : Nat := (if neg then 2 ^ 63 else 0) + be.toNat * 2 ^ 52 + (m - 2 ^ 52)
@@ -366,12 +366,17 @@ def verdictGet (s : S α) (w : W α) (what : String) (ns : List Nat) (t : List S
   let D := polyDeriv s.poly
   let x := values w.fn.params
   let own (n : Nat) := posOf w.fn.params n
+  -- the wrapped function of the harness caches its analytical derivatives when it is evaluated with
+  -- them switched on: the claim is about a cache computed at the current point
+  let same (a b : List α) : Bool := a.length == b.length && (List.zip a b).all (fun ab => eqb ab.1 ab.2)
+  let fresh1 := same w.fn.pt1 x
+  let fresh2 := same w.fn.pt2 x
   let want : Option α :=
     match what, ns with
-    | "d1", [n] => if ((idx w.vars n).isNone || !w.c1) && w.fn.kind ≥ 1 && w.fn.en1 then (own n).map (fun k => D.d1 k x) else none
-    | "d2", [n] => if w.scheme != .two && ((idx w.vars n).isNone || !w.c2) && w.fn.kind ≥ 2 && w.fn.en2 then (own n).map (fun k => D.d2 k x) else none
+    | "d1", [n] => if ((idx w.vars n).isNone || !w.c1) && w.fn.kind ≥ 1 && w.fn.en1 && fresh1 then (own n).map (fun k => D.d1 k x) else none
+    | "d2", [n] => if w.scheme != .two && ((idx w.vars n).isNone || !w.c2) && w.fn.kind ≥ 2 && w.fn.en2 && fresh2 then (own n).map (fun k => D.d2 k x) else none
     | "dx", [n, m] =>
-      if w.scheme == .three && ((idx w.vars n).isNone || (idx w.vars m).isNone || !w.cx) && w.fn.kind ≥ 2 && w.fn.en2 then
+      if w.scheme == .three && ((idx w.vars n).isNone || (idx w.vars m).isNone || !w.cx) && w.fn.kind ≥ 2 && w.fn.en2 && fresh2 then
         match own n, own m with
         | some k, some l => some (D.dx k l x)
         | _, _ => none
